@@ -628,6 +628,8 @@ def run_unary(prop, tier, seed, replay):
         if not replay:
             if prop == "C02":
                 models.append(engine.t1_model(work, tier))
+            if prop in ("C03", "C04"):
+                models.append(engine.t2_model(work, tier))
             if prop == "C14":
                 models.append(engine.cyclebreak_model(work, tier))
             if prop == "C10":
